@@ -81,3 +81,62 @@ func subChurn(seed uint64, p *Profile) *Scenario {
 	sc.World.FrameDuration = []time.Duration{time.Millisecond, 5 * time.Millisecond, 15 * time.Millisecond}[r.Intn(3)]
 	return sc
 }
+
+// longLived: one session kept alive by an anchor while 64-300 other connections come and go,
+// so that participant ids (sequential, never reused) cross the 64, 128 and 256 marks; then the
+// members address each other. Anything that packs ids into a mask, a byte or a fixed table
+// goes wrong here and nowhere else.
+func longLived(seed uint64, p *Profile, prop string) *Scenario {
+	r := simrt.NewRand(seed, "longlived")
+	g := &genState{r: r, p: p, joined: map[int]string{}, dead: map[int]bool{}, sessN: 1}
+	add := func(st Step) { g.steps = append(g.steps, st) }
+	g.join(0, "S0")
+	g.join(1, "S0")
+	next := 2
+	churn := []int{62, 63, 64, 65, 126, 127, 130, 254, 258}[r.Intn(9)]
+	for i := 0; i < churn; i++ {
+		add(Step{Conn: next, Op: "join", Sess: "S0"})
+		if r.Bool(0.1) {
+			add(Step{Conn: next, Op: "entity_add", Seq: float32(i + 1)})
+		}
+		add(Step{Conn: next, Op: []string{"close", "close", "rst"}[r.Intn(3)]})
+		next++
+	}
+	var late []int
+	for i := 0; i < 2+r.Intn(3); i++ {
+		add(Step{Conn: next, Op: "join", Sess: "S0"})
+		late = append(late, next)
+		next++
+	}
+	everyone := append([]int{0, 1}, late...)
+	for i := 0; i < 4+r.Intn(6); i++ {
+		c := everyone[r.Intn(len(everyone))]
+		switch r.Intn(5) {
+		case 0:
+			add(Step{Conn: c, Op: "custom", BodyLen: 10 + r.Intn(50), Fill: byte(i)})
+		case 1, 2:
+			st := Step{Conn: c, Op: "custom", BodyLen: 10 + r.Intn(50), Fill: byte(i)}
+			for k := 0; k < len(everyone); k++ {
+				if r.Bool(0.7) {
+					st.Rcpts = append(st.Rcpts, Ref{K: "member", I: k})
+				}
+			}
+			add(st)
+		case 3:
+			add(Step{Conn: c, Op: "entity_add", Seq: float32(1000 + i)})
+		default:
+			add(Step{Conn: c, Op: "pose", Ent: Ref{K: "own"}, Seq: float32(2000 + i)})
+		}
+	}
+	g.nConns = next
+	sc := &Scenario{Prop: prop, Family: "history", Seed: seed, Steps: g.steps}
+	sc.World = genWorld(seed, r, p)
+	sc.World.Policy = "seq"
+	sc.World.StallProb = 0
+	// cheap ticks: the scenario is long
+	if sc.World.FrameDuration < 15*time.Millisecond {
+		sc.World.FrameDuration = 15 * time.Millisecond
+	}
+	sc.World.Net.MinLat, sc.World.Net.Jitter = 200*time.Microsecond, 0
+	return sc
+}
